@@ -531,6 +531,190 @@ def globals_snapshot(world: PatchWorld):
     return snap
 
 
+def fd_table():
+    out = {}
+    for f in os.listdir("/proc/self/fd"):
+        try:
+            out[int(f)] = os.readlink(f"/proc/self/fd/{f}")
+        except OSError:
+            pass          # the directory handle of this very listing
+    return out
+
+
+def cache_sizes():
+    """Sizes of the module-level caches the model covers, with their bounds (None = unbounded)."""
+    from sharepoint2text.parsing.extractors import archive_extractor as ae, epub_extractor as ep, serialization
+    from sharepoint2text.parsing.extractors.open_office import _shared as oo
+    from sharepoint2text.parsing.extractors.pdf import _pypdf_aes_fallback as aes, pdf_extractor as pe
+    out = {"_ROUND_KEY_CACHE": (len(aes._ROUND_KEY_CACHE), int(aes._ROUND_KEY_CACHE_MAX)),
+           "_FONT_CACHE": (len(pe._FONT_CACHE), None),
+           "_TYPE_REGISTRY": (len(serialization._TYPE_REGISTRY), None)}
+    for nm, f in (("archive._is_supported_file_cached", ae._is_supported_file_cached),
+                  ("archive._get_file_extractor_cached", ae._get_file_extractor_cached),
+                  ("archive._get_router_functions", ae._get_router_functions),
+                  ("epub._guess_content_type", ep._guess_content_type),
+                  ("open_office.guess_content_type", oo.guess_content_type)):
+        if hasattr(f, "cache_info"):
+            i = f.cache_info()
+            out[nm] = (i.currsize, i.maxsize)
+    return out
+
+
+class ResidueMonitor:
+    """Compares, after EVERY extraction step, the process-global residue with the snapshot taken before:
+    listing of the private temp root, open fds, live threads, identity/nesting of the patched pypdf functions,
+    counter/lock of the patch protocol, archive_extractor._config, AES provider flag (one-way: known finding),
+    cache sizes against their bounds (memo tables may fill - their transparency is proved and tested - but never
+    beyond their capacity; the type registry must keep its size once filled)."""
+
+    def __init__(self, ctx, world, tmproot, aes0):
+        from sharepoint2text.parsing.extractors import serialization
+        self.ctx, self.world, self.tmproot = ctx, world, tmproot
+        serialization._get_type_registry()
+        gc.collect()
+        self.snap = globals_snapshot(world)
+        self.snap["aes_provider_patched"] = aes0       # as it was when the process started
+        self.tmp = sorted(os.listdir(tmproot))
+        self.fds = fd_table()
+        self.threads = {t.ident for t in threading.enumerate()}
+        self.registry = cache_sizes()["_TYPE_REGISTRY"][0]
+        self.steps = 0
+
+    def _fd_growth(self):
+        now = fd_table()
+        new = {k: v for k, v in now.items() if k not in self.fds}
+        if new:
+            gc.collect()       # handles owned by unreachable cycles are not residue
+            now = fd_table()
+            new = {k: v for k, v in now.items() if k not in self.fds}
+        return new
+
+    def _new_threads(self):
+        new = [t for t in threading.enumerate() if t.ident not in self.threads]
+        if new:
+            for t in new:
+                t.join(timeout=0.5)
+            new = [t for t in threading.enumerate() if t.ident not in self.threads]
+        return new
+
+    def step(self, name, outcome, replay, key=None):
+        """`name` describes the input, `key` (default: name) is the stable finding key (one finding per damaged
+        source fixture, the first failing damage is kept in the replay file), `replay` holds the concrete input."""
+        self.steps += 1
+        key = key or name
+        ctx = self.ctx
+        rep = dict(replay)
+        rep["outcome"] = outcome
+        tmp = sorted(os.listdir(self.tmproot))
+        if tmp != self.tmp:
+            left = sorted(set(tmp) - set(self.tmp))
+            gone = sorted(set(self.tmp) - set(tmp))
+            rep.update(left_behind=left, removed=gone, temp_root="private tempfile.tempdir of the run")
+            ctx.finding(f"residue:temp-files:{key}",
+                        f"extraction of {name} ({outcome}) left {left[:4]} in the temp directory" +
+                        (f" / removed {gone[:4]}" if gone else ""), rep)
+            import shutil
+            for x in left:
+                shutil.rmtree(os.path.join(self.tmproot, x), ignore_errors=True)
+                try:
+                    os.unlink(os.path.join(self.tmproot, x))
+                except OSError:
+                    pass
+            self.tmp = sorted(os.listdir(self.tmproot))
+        new = self._fd_growth()
+        if new:
+            rep.update(new_fds=new)
+            ctx.finding(f"residue:open-fds:{key}", f"extraction of {name} ({outcome}) left open handles {list(new.values())[:4]}", rep)
+            self.fds = fd_table()
+        th = self._new_threads()
+        if th:
+            rep.update(new_threads=[t.name for t in th])
+            ctx.finding(f"residue:threads:{key}", f"extraction of {name} ({outcome}) left threads running: {[t.name for t in th][:4]}", rep)
+            self.threads = {t.ident for t in threading.enumerate()}
+        snap = globals_snapshot(self.world)
+        diff = {k: (self.snap[k], snap[k]) for k in snap if snap[k] != self.snap[k]}
+        if "aes_provider_patched" in diff:
+            ctx.finding("aes-fallback-patch:permanent",
+                        "after extracting an AES-encrypted PDF pypdf's fallback crypto provider stays patched for the rest "
+                        f"of the process (patch_pypdf_fallback_aes is one-way); first seen after {name}", rep)
+            diff.pop("aes_provider_patched")
+            self.snap["aes_provider_patched"] = snap["aes_provider_patched"]
+        if diff:
+            rep.update(diff=diff)
+            ctx.finding(f"residue:globals:{'+'.join(sorted(diff))}:{key}",
+                        f"process-global state changed by the extraction of {name} ({outcome}): {diff}", rep)
+            self.world.reset()
+            self.snap.update({k: v for k, v in globals_snapshot(self.world).items() if k != "aes_provider_patched"})
+        for cname, (size, cap) in cache_sizes().items():
+            over = (cap is not None and size > cap) or (cname == "_TYPE_REGISTRY" and size != self.registry)
+            if over:
+                rep.update(cache=cname, size=size, bound=cap if cap is not None else self.registry)
+                ctx.finding(f"residue:cache-bound:{cname}", f"{cname} has {size} entries after the extraction of {name} "
+                            f"(bound {cap if cap is not None else self.registry})", rep)
+
+
+def damaged_variants(ctx, src: Path, thorough_extra=0):
+    """Cheap damage at several offsets so that failures happen at different stages (header, directory,
+    packed data, trailer): truncations, 8 flipped bytes, a zeroed block."""
+    data = src.read_bytes()
+    n = len(data)
+    out = []
+    for frac, tag in ((0.1, "trunc10"), (0.5, "trunc50"), (0.9, "trunc90")):
+        out.append((f"{tag}", data[: max(1, int(n * frac))]))
+    out.append(("trunc-8", data[: max(1, n - 8)]))
+    offs = [40, n // 4, n // 2, (3 * n) // 4, max(0, n - 64)]
+    offs += [ctx.rng.randrange(max(1, n - 8)) for _ in range(thorough_extra)]
+    for o in offs:
+        if o + 8 <= n:
+            b = bytearray(data)
+            for i in range(o, o + 8):
+                b[i] ^= 0xFF
+            out.append((f"flip8@{o}", bytes(b)))
+    if n > 256:
+        b = bytearray(data)
+        b[n // 3: n // 3 + 64] = bytes(64)
+        out.append((f"zero64@{n // 3}", bytes(b)))
+    return out
+
+
+def damaged_input_checks(ctx, mon: ResidueMonitor, fx):
+    """Failing (and accidentally still succeeding) inputs for every format that can be damaged cheaply; the
+    residue is compared after each single extraction.  The same damaged input is extracted twice in a row:
+    the outcome must not depend on the first attempt either."""
+    want = ["test_archive.7z", "test_archive.zip", "sample.zip", "test_archive.tar.gz", "test_archive.tar",
+            "headings.docx", "mwe.xlsx", "pptx_table.pptx", "sample_document.odt", "sample_spreadsheet.ods",
+            "sample_presentation.odp", "sample.epub", "sample.pdf", "wirecard-annual-report-2018-page190.pdf",
+            "basic_email.msg", "basic_email.eml", "basic_email.mbox", "headings.doc", "mwe.xls", "slide_with_notes.ppt",
+            "2025.144.un.rtf", "sample.mhtml", "sample.html"]
+    byname = {Path(p).name: Path(p) for p in fx}
+    srcs = [byname[w] for w in want if w in byname]
+    if ctx.tier == "thorough":
+        srcs += [Path(p) for p in fx if Path(p).name not in want and Path(p).stat().st_size < 400_000]
+    kinds = {}
+    for src in srcs:
+        variants = damaged_variants(ctx, src, thorough_extra=ctx.n(0, 6))
+        if ctx.tier == "quick" and src.stat().st_size > 150_000:
+            variants = variants[1::2]          # large sources: half of the variants in the quick tier
+        for tag, data in variants:
+            name = f"{src.name}#{tag}"
+            path = "damaged/" + src.name
+            replay = {"source_fixture": str(src), "damage": tag, "size": len(data),
+                      "how": "tools/props/c15.py damaged_variants(); extract with get_extractor(name)(io.BytesIO(data), name)"}
+            if len(data) <= 4096:
+                replay["data"] = data
+            first = extract_digest(path, data)
+            mon.step(name, first, replay, key=src.name)
+            second = extract_digest(path, data)
+            mon.step(name, second, replay, key=src.name)
+            if first != second:
+                ctx.finding(f"history-dependent:{name}", f"damaged input {name} gives {first}, then {second} when extracted again",
+                            dict(replay, first=first, second=second))
+            k = f"damaged:{src.suffix or src.name}:{'fails' if first.startswith('exc:') else 'survives'}"
+            kinds[k] = kinds.get(k, 0) + 1
+            ctx.case(("damaged", name, first), True, kind=k)
+    ctx.extra["damaged_inputs"] = kinds
+
+
 # ============================================================================ other translators (memo sites)
 def translate_rk(aes):
     """Shape of _get_round_keys: ('unlocked', gate_lines) | ('locked', {}) ; anything else raises."""
@@ -1064,34 +1248,15 @@ def workload_checks(ctx, pe, aes, world, docs, base, tmproot, special, aes0=Fals
     from sharepoint2text.parsing.extractors import serialization
     fast = [d for d in docs if d not in special.values()]
     pe._FONT_CACHE.clear()
-    snap0 = globals_snapshot(world)
-    snap0["aes_provider_patched"] = aes0      # as it was when the process started
-    gc.collect()
-    fd0, tmp0 = fd_count(), sorted(os.listdir(tmproot))
+    mon = ResidueMonitor(ctx, world, tmproot, aes0)
 
     def residue(tag, seq):
-        gc.collect()
-        snap, fd1, tmp1 = globals_snapshot(world), fd_count(), sorted(os.listdir(tmproot))
-        diff = {k: (snap0[k], snap[k]) for k in snap if snap[k] != snap0[k]}
-        if "aes_provider_patched" in diff:
-            ctx.finding("aes-fallback-patch:permanent",
-                        "after extracting an AES-encrypted PDF pypdf's fallback crypto provider stays patched for the rest "
-                        f"of the process (patch_pypdf_fallback_aes is one-way); sequence {[Path(s).name for s in seq]}",
-                        {"sequence": seq, "before": snap0, "after": snap})
-            diff.pop("aes_provider_patched")
-            snap0["aes_provider_patched"] = snap["aes_provider_patched"]
-        if diff:
-            ctx.finding(f"residue:globals:{'+'.join(sorted(diff))}", f"process-global state changed by {tag}: {diff}",
-                        {"sequence": seq, "diff": diff})
-        if tmp1 != tmp0:
-            ctx.finding("residue:temp-files", f"temporary files left behind by {tag}: {sorted(set(tmp1) - set(tmp0))[:5]}",
-                        {"sequence": seq, "left": sorted(set(tmp1) - set(tmp0))})
-        if fd1 > fd0:
-            ctx.finding("residue:open-fds", f"open file descriptors grew from {fd0} to {fd1} during {tag}", {"sequence": seq})
+        mon.step(tag, "phase-end", {"sequence": seq})
 
     def check_seq(seq, tag):
         for i, d in enumerate(seq):
             got = extract_digest(d)
+            mon.step(Path(d).name, got, {"document": d, "history": seq[:i]})
             if got != base[d]:
                 hist = [Path(x).name for x in seq[:i]]
                 ctx.finding(f"history-dependent:{Path(d).name}",
@@ -1117,6 +1282,10 @@ def workload_checks(ctx, pe, aes, world, docs, base, tmproot, special, aes0=Fals
     for seq in trip[: ctx.n(20, 60)]:
         check_seq(list(seq), "sequence:triples")
     residue("ordered sequences", core)
+    # ---- damaged inputs of every format, residue compared after each single (mostly failing) extraction
+    t_d = time.time()
+    damaged_input_checks(ctx, mon, [d for d in docs if "/resources/" in d])
+    ctx.extra.setdefault("phase_s", {})["damaged"] = round(time.time() - t_d, 1)
     # one long random history over everything
     hist = list(fast)
     rng.shuffle(hist)
@@ -1190,6 +1359,7 @@ def workload_checks(ctx, pe, aes, world, docs, base, tmproot, special, aes0=Fals
         ctx.finding(k, f"{Path(d).name} extracted while {nthreads - 1} other threads extract mixed formats gives {got}, "
                        f"isolated baseline {want} ({sum(1 for m in mism if m[0] == d)} occurrences)",
                     {"document": d, "got": got, "baseline": want, "threads": nthreads})
+    ctx.extra["residue_steps"] = mon.steps
     snapc = globals_snapshot(world)
     if snapc["char_map_depth"] != 0 or snapc["char_map_counter"] != 0 or snapc["char_map_lock"]:
         ctx.finding("char-map-patch:unrestored-after-preemptive-workload",
